@@ -361,7 +361,7 @@ fn read(rng: &mut Rng, ctx: &mut Ctx) {
 fn ver(rng: &mut Rng, ctx: &mut Ctx) {
     let thresholds = [(0,0),(0,1),(0,255),(1,255),(254,255),(255,0),(255,1),(255,128),(255,255),(128,0),(0,2),(1,0),(1,2),(1,3),(1,4),(1,5),(2,0),(2,1),(2,2),(3,0),(3,2),(3,3),(3,5),(3,6),(3,7),(3,8),(3,9),(3,10),(3,11),(3,12),(3,13),(3,14),(3,15),(3,16)];
     let one = |a: u8, b: u8, m: u8, mi: u8, ctx: &mut Ctx| {
-        let v = slippi::Version(a, b, 0); let exp = (a, b) >= (m, mi);
+        let v = slippi::Version(a, b, [0u8, 1, 7, 24, 255, 31][(a as usize + b as usize + m as usize + mi as usize) % 6]); let exp = (a, b) >= (m, mi); /* the patch component never matters */
         let (got, lt) = match std::panic::catch_unwind(|| (v.gte(m, mi), v.lt(m, mi))) { Ok(x) => x,
             Err(_) => { let mut c = Case::new(format!("gte {} {} {} {}", a, b, m, mi), "panic".into()); c.tags = vec!["gte".into()]; c.fail("C20", format!("gte/lt({},{}) on {}.{} panicked: the comparison is not total", m, mi, a, b)); ctx.push(c); return; } };
         let mut c = Case::new(format!("gte {} {} {} {}", a, b, m, mi), format!("{} {}", got, lt)); c.tags = vec!["gte".into(), if m == 255 || m == 0 || mi == 255 || mi == 0 { "extreme-threshold".into() } else { "gate-threshold".into() }];
@@ -461,6 +461,17 @@ fn roll(rng: &mut Rng, ctx: &mut Ctx) {
             Ok((a, b)) => { c.impl_out = format!("ok {} {}", a == exp, b == exp); if a != exp { c.fail("C15", "mask of the long game differs from the reference (first call)"); }
                 if b != exp { c.fail("C15", format!("mask of a game asked again after {} calls on other games differs from the reference ({} rows differ)", run, b.iter().zip(&exp).filter(|(x, y)| x != y).count())); } } }
         ctx.push(c); } }
+    // a call on a table outside the function's domain (an id below -123, met after some valid rows: the call panics) and then, on the same thread,
+    // a valid table that shares ids with the rows visited before the panic: its mask is its own
+    for (vi, bad) in [vec![-123i32, -122, -121, -124], vec![-120, -119, -125, -118], vec![5, 6, 7, 7, -200]].into_iter().enumerate() { for (mode, first) in [(Rollbacks::ExceptFirst, true), (Rollbacks::ExceptLast, false)] {
+        let mk = |ids: &[i32]| im::Frame { id: PrimitiveArray::from_vec(ids.to_vec()), ports: vec![], start: None, end: None, item_offset: None, item: None };
+        let good: Vec<i32> = if vi == 2 { vec![4, 5, 6, 7, 8] } else { vec![-123, -122, -121, -120, -119, -118] };
+        let _ = std::panic::catch_unwind(|| mk(&bad).rollbacks(mode));
+        let got = std::panic::catch_unwind(|| mk(&good).rollbacks(mode)); let exp = reference(&good, first);
+        let mut c = Case::new(format!("rollseq {} afterpanic{}", if first { "first" } else { "last" }, vi), String::new()); c.tags = vec!["rollseq-after-panic".into()];
+        match got { Err(_) => { c.impl_out = "panic".into(); c.fail("C15", "rollbacks() panicked on ids >= -123 (after a call on another table that panicked)"); }
+            Ok(m) => { c.impl_out = format!("ok {}", m == exp); if m != exp { c.fail("C15", format!("after a call that panicked part-way (ids {:?}), the mask of a valid table on the same thread is {:?}, reference {:?}", bad, m, exp)); } } }
+        ctx.push(c); } }
     // long tables: a frame sent again (or a rollback of two frames) with the repeated rows exactly on either side of a row index that is a power of
     // two (an implementation that walks the column in blocks), among thousands of consecutive ids
     for (bi, b) in [64usize, 128, 256, 512, 1024, 2048, 4096, 1024, 2048].into_iter().enumerate() { for (mode, first) in [(Rollbacks::ExceptFirst, true), (Rollbacks::ExceptLast, false)] {
@@ -526,6 +537,14 @@ fn arrow(rng: &mut Rng, ctx: &mut Ctx) {
                 if let Some(it) = fe.item.as_mut() { let m = it.r#type.len(); if m > 0 { let bits: Vec<bool> = (0..m).map(|j| (j + k / 4) % 3 != 0).collect(); it.validity = Some(arrow2::bitmap::Bitmap::from(bits)); } }
                 for i in 0..n { let t = match std::panic::catch_unwind(std::panic::AssertUnwindSafe(|| fe.transpose_one(i, ver))) { Ok(t) => t, Err(_) => { win_err = Some(format!("row view of frame {} panics when the item column carries a validity bitmap", i)); break; } };
                     if let Err(e) = compare_view(&t, &fe, i) { win_err = Some(format!("item column with a validity bitmap: {}", e)); break; } } }
+            // a leaf column whose own validity bitmap marks rows as null although values are stored there (an array masked by the user, or written by
+            // another Arrow producer): the row view shows the values stored at that index
+            if k % 4 == 3 && n > 0 { let mut fe = im::Frame::from_struct_array(sa.clone(), ver);
+                if let Some(p) = fe.ports.first_mut() { let bits: Vec<bool> = (0..n).map(|j| (j + k / 4) % 2 == 1).collect();
+                    p.leader.pre.random_seed = p.leader.pre.random_seed.clone().with_validity(Some(arrow2::bitmap::Bitmap::from(bits.clone())));
+                    p.leader.post.stocks = p.leader.post.stocks.clone().with_validity(Some(arrow2::bitmap::Bitmap::from(bits))); }
+                for i in 0..n.min(4) { let t = match std::panic::catch_unwind(std::panic::AssertUnwindSafe(|| fe.transpose_one(i, ver))) { Ok(t) => t, Err(_) => { win_err = Some(format!("row view of frame {} panics when a leaf column carries a validity bitmap", i)); break; } };
+                    if let Err(e) = compare_view(&t, &fe, i) { win_err = Some(format!("leaf column with a validity bitmap: {}", e)); break; } } }
             let mut g2 = Game { start, end, frames: f2, metadata: md, gecko_codes: gc, hash: None, quirks: q };
             let mut o = vec![]; let w = slippi::write(&mut o, &g2);
             // a frame table whose ports are listed in another order (built by a user, not by a reader): export / import keeps the order
@@ -858,7 +877,10 @@ fn ubj(rng: &mut Rng, ctx: &mut Ctx) {
         if longstr { let ch = ["€", "é", "😀", "あ"][(k / 16) % 4]; let j = (k / 16 + k / 64) % 3;
             let mk = |total: usize| -> Vec<u8> { let mut v: Vec<u8> = std::iter::repeat(b'a').take(j).collect(); while v.len() + ch.len() <= total { v.extend(ch.as_bytes()); } v };
             let (key, val) = (mk(200), mk(255)); body.clear(); body.push(b'U'); body.push(key.len() as u8); body.extend(&key); body.extend(b"SU"); body.push(val.len() as u8); body.extend(&val); clean = true; }
-        let structured = k % 20 == 19 || run || longstr; // the deep and the wide trees stay as built
+        // keys of length 0 (the empty string is a key like any other), first, in the middle, last, nested, next to an empty string value
+        let emptykey = k % 16 == 13 && k % 20 != 19;
+        if emptykey { body.clear(); body.extend(match (k / 16) % 4 { 0 => &b"U\x00SU\x01aU\x01bl\x00\x00\x00\x05"[..], 1 => &b"U\x01al\x00\x00\x00\x01U\x00{U\x00SU\x00U\x01cSU\x01d}U\x01el\xff\xff\xff\xff"[..], 2 => &b"U\x01aSU\x00U\x00SU\x00"[..], _ => &b"U\x01m{U\x00{U\x00l\x00\x00\x00\x09}U\x01xSU\x01y}U\x01zSU\x01w"[..] }); clean = true; }
+        let structured = k % 20 == 19 || run || longstr || emptykey; // the deep and the wide trees stay as built
         if k % 9 == 8 && !structured && !body.is_empty() { let i = (rng.next() as usize) % body.len(); body[i] = (rng.next() >> 8) as u8; clean = false; }
         // a length written with another UBJSON integer type (`l` int32, `i` int8, `I` int16, `L` int64) — negative, zero, small, huge — where the
         // format subset has `U`: for a string value or for a key
